@@ -236,7 +236,7 @@ int main(int argc, char **argv) {
         printf("replay verdict: %s\n", v ? "VIOLATION reproduced" : "no violation");
         return v ? 1 : 0;
     }
-    int len = thorough ? 6 : 5;
+    int len = thorough ? 7 : 5;
     run.run_tasks(classes.size(), [&](uint64_t i) { classes[i].explore(run, cn, len); });
     mc::Run::EvidenceExtra ev;
     ev.states_counter = "history_steps_executed"; ev.transitions_counter = "target_queries_compared"; ev.nontrivial_counter = "histories_that_query_the_target_after_touching_the_source"; ev.eval_counter = "histories_executed";
